@@ -555,6 +555,9 @@ impl<'a> Http2Parser<'a> {
         let stream_frames: Vec<&Http2Frame> =
             frames.iter().filter(|f| f.stream_id == stream_id).collect();
 
+        // Every parse starts at the beginning of a connection: start from an empty dynamic table
+        *self.hpack_decoder.borrow_mut() = Decoder::new();
+
         for frame in stream_frames {
             match frame.frame_type {
                 Http2FrameType::Headers | Http2FrameType::Continuation => {
